@@ -521,8 +521,10 @@ __result = __json.dumps({call_code})
     import sys
 
     # the child gets a process group of its own, so that whatever it starts is stopped with it
+    # (no access to this process's stdin: in the daemon that is the stream of pending requests)
     process = subprocess.Popen(
         [sys.executable, "-c", code],
+        stdin=subprocess.DEVNULL,
         stdout=subprocess.PIPE,
         stderr=subprocess.PIPE,
         start_new_session=_HAS_PROCESS_GROUPS,
